@@ -7,6 +7,7 @@
 
 #![allow(clippy::single_match)]
 
+use crate::stack::StackUsage;
 use crate::{ebpf, format, vec, Error, HashMap, Vec};
 #[cfg(not(feature = "std"))]
 use crate::ErrorKind;
@@ -472,14 +473,19 @@ impl JitCompiler {
         }
     }
 
-    fn emit_local_call(&mut self, mem: &mut JitMemory, target_pc: isize) {
+    fn emit_local_call(&mut self, mem: &mut JitMemory, target_pc: isize, frame_size: u16) {
         self.emit_push(mem, map_register(6));
         self.emit_push(mem, map_register(7));
         self.emit_push(mem, map_register(8));
         self.emit_push(mem, map_register(9));
+        // The callee gets its own stack frame: lower the eBPF frame pointer by the stack usage of
+        // the calling function, as the interpreter does, and restore it on return.
+        self.emit_push(mem, map_register(10));
+        self.emit_alu64_imm32(mem, 0x81, 5, map_register(10), frame_size as i32);
         // 0xe8 is the opcode for a CALL
         self.emit1(mem, 0xe8);
         self.emit_jump_offset(mem, target_pc);
+        self.emit_pop(mem, map_register(10));
         self.emit_pop(mem, map_register(9));
         self.emit_pop(mem, map_register(8));
         self.emit_pop(mem, map_register(7));
@@ -493,6 +499,7 @@ impl JitCompiler {
         use_mbuff: bool,
         update_data_ptr: bool,
         helpers: &HashMap<u32, ebpf::Helper>,
+        stack_usage: Option<&StackUsage>,
     ) -> Result<(), Error> {
         self.emit_push(mem, RBP);
         self.emit_push(mem, RBX);
@@ -562,10 +569,16 @@ impl JitCompiler {
         self.pc_locs = vec![0; prog.len() / ebpf::INSN_SIZE + 1];
 
         let mut insn_ptr: usize = 0;
+        let mut frame_size = ebpf::LOCAL_FUNCTION_STACK_SIZE;
         while insn_ptr * ebpf::INSN_SIZE < prog.len() {
             let insn = ebpf::get_insn(prog, insn_ptr);
 
             self.pc_locs[insn_ptr] = mem.offset;
+
+            // Stack usage of the function the current instruction belongs to.
+            if let Some(usage) = stack_usage.and_then(|s| s.stack_usage_for_local_func(insn_ptr)) {
+                frame_size = usage.stack_usage();
+            }
 
             let dst = map_register(insn.dst);
             let src = map_register(insn.src);
@@ -960,7 +973,7 @@ impl JitCompiler {
                         }
                         0x1 => {
                             let target_pc = insn_ptr as isize + insn.imm as isize + 1;
-                            self.emit_local_call(mem, target_pc);
+                            self.emit_local_call(mem, target_pc, frame_size);
                         }
                         _ => {
                             Err(Error::other(
@@ -1061,6 +1074,7 @@ impl<'a> JitMemory<'a> {
     pub fn new(
         prog: &[u8],
         helpers: &HashMap<u32, ebpf::Helper>,
+        stack_usage: Option<&StackUsage>,
         use_mbuff: bool,
         update_data_ptr: bool,
     ) -> Result<JitMemory<'a>, Error> {
@@ -1069,7 +1083,7 @@ impl<'a> JitMemory<'a> {
         // Pass 1: size-only, no writes.
         let mut counter = JitMemory::counter();
         let mut jit = JitCompiler::new();
-        jit.jit_compile(&mut counter, prog, use_mbuff, update_data_ptr, helpers)?;
+        jit.jit_compile(&mut counter, prog, use_mbuff, update_data_ptr, helpers, stack_usage)?;
         let size = round_up_to_page(counter.offset.max(PAGE_SIZE));
 
         let contents = unsafe {
@@ -1099,7 +1113,7 @@ impl<'a> JitMemory<'a> {
 
         // Pass 2: real emission + reloc resolution.
         let mut jit = JitCompiler::new();
-        jit.jit_compile(&mut mem, prog, use_mbuff, update_data_ptr, helpers)?;
+        jit.jit_compile(&mut mem, prog, use_mbuff, update_data_ptr, helpers, stack_usage)?;
         jit.resolve_jumps(&mut mem)?;
 
         Ok(mem)
@@ -1110,13 +1124,14 @@ impl<'a> JitMemory<'a> {
         prog: &[u8],
         executable_memory: &'a mut [u8],
         helpers: &HashMap<u32, ebpf::Helper>,
+        stack_usage: Option<&StackUsage>,
         use_mbuff: bool,
         update_data_ptr: bool,
     ) -> Result<JitMemory<'a>, Error> {
         // Pass 1: compute required size.
         let mut counter = JitMemory::counter();
         let mut jit = JitCompiler::new();
-        jit.jit_compile(&mut counter, prog, use_mbuff, update_data_ptr, helpers)?;
+        jit.jit_compile(&mut counter, prog, use_mbuff, update_data_ptr, helpers, stack_usage)?;
         let size = round_up_to_page(counter.offset.max(PAGE_SIZE));
 
         let contents = executable_memory;
@@ -1141,7 +1156,7 @@ impl<'a> JitMemory<'a> {
 
         // Pass 2: real emission + reloc resolution.
         let mut jit = JitCompiler::new();
-        jit.jit_compile(&mut mem, prog, use_mbuff, update_data_ptr, helpers)?;
+        jit.jit_compile(&mut mem, prog, use_mbuff, update_data_ptr, helpers, stack_usage)?;
         jit.resolve_jumps(&mut mem)?;
 
         Ok(mem)
